@@ -68,12 +68,28 @@ impl fmt::Display for InvalidCompressionType {
 
 impl Error for InvalidCompressionType {}
 
-pub fn decompress<R>(typ: CompressionType, mut data: R, out: &mut Vec<u8>) -> io::Result<()>
+/// A reader that retries the reads that were interrupted (`ErrorKind::Interrupted`) instead
+/// of reporting them: some decoders cannot resume their work after such an error.
+struct RetryInterrupted<R>(R);
+
+impl<R: io::Read> io::Read for RetryInterrupted<R> {
+    fn read(&mut self, buf: &mut [u8]) -> io::Result<usize> {
+        loop {
+            match self.0.read(buf) {
+                Err(e) if e.kind() == io::ErrorKind::Interrupted => continue,
+                result => return result,
+            }
+        }
+    }
+}
+
+pub fn decompress<R>(typ: CompressionType, data: R, out: &mut Vec<u8>) -> io::Result<()>
 where
     R: io::Read,
 {
+    let mut data = RetryInterrupted(data);
     match typ {
-        CompressionType::None => data.read_to_end(out).map(drop),
+        CompressionType::None => io::Read::read_to_end(&mut data, out).map(drop),
         CompressionType::Zlib => zlib_decompress(data, out),
         CompressionType::SnappyPre05 => snappy_pre_05_decompress(data, out),
         CompressionType::Lz4 => lz4_decompress(data, out),
